@@ -164,6 +164,18 @@ func zzStdinTask(in *TaskInput, parseError bool) {
 	zzSetStdin(data)
 }
 
+func zzStdinPlan(in *PlanInput, parseError bool) {
+	if parseError {
+		zzSetStdin([]byte("{\"title\": "))
+		return
+	}
+	data, err := json.Marshal(in)
+	if err != nil {
+		panic(err)
+	}
+	zzSetStdin(data)
+}
+
 func zzStdinText(s string) {
 	// --body-stdin reads stdin whatever it is; make it a regular file
 	p := filepath.Join(zzW.root, "zz-stdin")
